@@ -275,6 +275,85 @@ def _server_helpers(m):
     return lambda fn, t, d: d < 3 and t.bound_cls is not None and fn.module is m.module and fn.name not in noin
 
 
+
+_MUTATORS = ("append", "extend", "add", "update", "insert", "remove", "pop", "popitem", "clear", "setdefault", "sort", "reverse", "discard", "appendleft")
+_INTO = ("recv_into", "recvfrom_into", "readinto", "readinto1", "pack_into", "readv")
+
+
+def worker_state_obligations(ctx, rep, rule="R14f"):
+    """The server object is the one thing every worker thread shares: what a worker runs on it (process_request_thread and the
+    methods of the server it calls) only reads it - no attribute written, no container or buffer of the server changed in place."""
+    prog = ctx.prog
+    bs = ctx.cls("server.BaseServer")
+    n = 0
+    for S in (prog.subclasses(bs, strict=True) if bs else []):
+        exts = prog.external_bases(S)
+        if not any(b.endswith("ThreadingTCPServer") or b.endswith("ThreadingMixIn") for b in exts):
+            continue
+        entry = prog.resolve_method(S, "process_request_thread")
+        if entry is None:
+            continue
+        work, seen = [entry], []
+        while work:
+            f = work.pop()
+            if f in seen:
+                continue
+            seen.append(f)
+            for node in ast.walk(f.node):
+                if isinstance(node, ast.Call) and isinstance(node.func, ast.Attribute) and dotted(node.func.value) in ("self", "super()"):
+                    g = prog.resolve_method(S, node.func.attr)
+                    if g is not None and g not in seen:
+                        work.append(g)
+        problems = []
+        for f in seen:
+            alias = {}
+            for node in ast.walk(f.node):
+                if isinstance(node, ast.Assign) and len(node.targets) == 1 and isinstance(node.targets[0], ast.Name) \
+                        and (dotted(node.value) or "").startswith("self.") and not (dotted(node.value) or "").startswith(("self.config", "self.context")):
+                    alias[node.targets[0].id] = dotted(node.value)
+
+            def srv(e):
+                """dotted self.X path an expression stands for (through a local alias), or ''"""
+                d = dotted(e) or ""
+                if d.startswith("self."):
+                    return d
+                head = d.split(".")[0]
+                if head in alias:
+                    return alias[head] + d[len(head):]
+                return ""
+
+            for node in ast.walk(f.node):
+                tgt = None
+                if isinstance(node, ast.Assign):
+                    tgt = [t for t in node.targets]
+                    for t in node.targets:
+                        if isinstance(t, ast.Subscript) and isinstance(t.value, ast.Name) and t.value.id in alias:
+                            problems.append((f, node, f"`{norm(node)[:50]}` writes into the server's `{alias[t.value.id][5:]}`"))
+                elif isinstance(node, (ast.AugAssign, ast.AnnAssign)) and getattr(node, "value", None) is not None:
+                    tgt = [node.target]
+                for t in tgt or []:
+                    base = t
+                    while isinstance(base, (ast.Subscript, ast.Attribute)) and not (isinstance(base, ast.Attribute) and dotted(base.value) == "self"):
+                        base = base.value
+                    if isinstance(base, ast.Attribute) and dotted(base.value) == "self":
+                        problems.append((f, node, f"`{norm(node)[:50]}` writes the server's `{base.attr}`"))
+                if isinstance(node, ast.Call) and isinstance(node.func, ast.Attribute):
+                    rv = srv(node.func.value)
+                    if node.func.attr in _MUTATORS and rv.startswith("self.") and not rv.startswith(("self.config", "self.context")):
+                        problems.append((f, node, f"`{norm(node)[:50]}` changes the server's `{rv[5:]}` in place"))
+                    if node.func.attr in _INTO:
+                        for a in list(node.args) + [k.value for k in node.keywords]:
+                            if srv(a).startswith("self."):
+                                problems.append((f, node, f"`{norm(node)[:50]}` fills the server's `{srv(a)[5:]}`"))
+        n += 1
+        rep.add(rule, f"{S.name}: what a worker thread runs on the server object only reads it [{len(seen)} methods]", not problems,
+                ctx.where(problems[0][0], problems[0][1]) if problems else ctx.where(entry),
+                "" if not problems else f"{problems[0][0].qualname}: {problems[0][2]} - every worker thread of the server shares that object, so two "
+                "connections handled at the same time see (and overwrite) each other's value", key=f"{rule}|{S.name}")
+    if not n:
+        rep.ok(rule, "no threading server class", "pygopherd/server.py", "", key=f"{rule}|none", nontrivial=False)
+
+
 def check(ctx, rep):
     prog = ctx.prog
     eff = Effects(prog, ctx.resolver)
@@ -286,6 +365,9 @@ def check(ctx, rep):
              "against each way such a file fails, and regenerates", floor=2)
     from .c11 import loader_guard_obligations
     loader_guard_obligations(ctx, rep, eff, "R14e")
+    rep.rule("R14f", "what a worker thread runs on the server object (process_request_thread, wrap_socket, ...) only reads that object: no attribute "
+             "assigned, no container or buffer of the server changed in place - the object is shared by all workers", floor=1)
+    worker_state_obligations(ctx, rep, "R14f")
     rep.rule("R14c", "fork child always _exit()s; parent records child, closes, returns; thread worker always shuts down", floor=2)
     funcs = request_functions(ctx, eff)
     rep.analysed(*sorted(f.qualname for f in funcs)[:150])
